@@ -30,7 +30,7 @@ type Built struct {
 }
 
 func labelOfValue(v *am.Value) Label {
-	return Label{Name: v.Name, Type: TypeName(v.Type), Sub: v.Subtype}
+	return Label{Name: SymName(v.Name), Type: TypeName(v.Type), Sub: v.Subtype}
 }
 
 // Instantiate builds the functions and option values of a scenario.  Tokens
@@ -152,6 +152,12 @@ func (b *Built) Args(r *rand.Rand) []am.Arg {
 		}
 		out = append(out[:pos], append([]am.Arg{nil}, out[pos:]...)...)
 	case "nilvalue":
+		// nil values are ignored - also when they come after a real value for the same key
+		for _, l := range b.S.Inputs {
+			if l.Name != "" {
+				out = append(out, am.NamedSubtype(strings.ToUpper(realName(l.Name)), nil, l.Sub), am.Named(realName(l.Name), nil))
+			}
+		}
 		out = append(out, am.Named("zz", nil), am.Typed(nil), am.NamedSubtype("zz", nil, "s"), am.TypedSubtype(nil, "s"), am.ConverterFunc(nil),
 			am.Logger(nil), am.ConverterGen(nil), am.FilterInput(nil), am.FilterOutput(nil))
 	case "cyclic":
@@ -468,8 +474,18 @@ func (b *Built) Execute(r *rand.Rand) {
 		}
 		res := b.Target.Call(args...)
 		env.emit(b.classify(res, s.Phase0))
+		if s.Family == "C16reuse" && len(b.ValArgs) > 0 {
+			// a later call reuses the FIRST value option of this call alone: it still carries what it was made with, and only that
+			env.Phase = s.Phase0 + 1
+			res2 := b.Target.Call(b.ValArgs[0])
+			env.emit(b.classify(res2, s.Phase0+1))
+		}
 		if s.Family == "C16" && s.NDef > 0 && s.Bad == "" {
 			// the same function again, now without the values given at Call: the defaults apply (and only they)
+			if len(b.CnvArgs) == 0 {
+				// (what an option-less Redefine prepared for itself must not be what an option-less Call then uses)
+				b.Target.Redefine()
+			}
 			env.Phase = s.Phase0 + 1
 			res2 := b.Target.Call(b.CnvArgs...)
 			env.emit(b.classify(res2, s.Phase0+1))
